@@ -1258,7 +1258,9 @@ class VerifyVisitor(Visitor):
 
   def __init__(self):
     super().__init__()
-    self._valid_param_name = re.compile(r"[a-zA-Z_]\w*$")
+    # Any Python identifier: a (Unicode) letter or underscore, then word
+    # characters.
+    self._valid_param_name = re.compile(r"[^\W\d]\w*$")
 
   def _AssertNoDuplicates(self, node, attrs):
     """Checks that we don't have duplicate top-level names."""
